@@ -621,6 +621,10 @@ func (self AnalyzedMatchExpression) String() string {
 	for _, arm := range self.Arms {
 		arms = append(arms, strings.ReplaceAll(arm.String(), "\n", "\n    "))
 	}
+	if self.DefaultArmAction != nil {
+		defaultArm := fmt.Sprintf("_ => %s", *self.DefaultArmAction)
+		arms = append(arms, strings.ReplaceAll(defaultArm, "\n", "\n    "))
+	}
 	return fmt.Sprintf("match %s {\n    %s\n}", self.ControlExpression, strings.Join(arms, ",\n    "))
 }
 func (self AnalyzedMatchExpression) Type() Type     { return self.ResultType }
